@@ -152,9 +152,9 @@ def r04_2(ctx, run, rule='R04.2'):
                         nullsplit.setdefault((lk, rk), {})[isnull] = o
             # argument order of the delegating calls
             rr = deref_all(p.ret)
-            if rr[0] == 'call' and canon(rr[1]).split('::')[-1] in ('compare_scalar', 'compare_array', 'compare_object'):
+            if rr[0] == 'call' and canon(rr[1]).split('::')[-1] in ('compare_scalar', 'compare_array', 'compare_object', 'compare_container'):
                 sides = arg_sides(rr, b)
-                want = ['L', 'L', 'R', 'R']
+                want = ['L', 'L', 'R', 'R'] if len(rr[2]) == 4 else ['L', 'R']
                 okk = all(s == w or s == '?' for s, w in zip(sides, want)) and sides.count('?') <= 1
                 d = f'args[{canon(rr[1]).split("::")[-1]}]'
                 (run.proved if okk else run.violation)(rule, fn, d, 'left operands first, right operands second' if okk else
@@ -169,6 +169,10 @@ def r04_2(ctx, run, rule='R04.2'):
             d = f'pair[{k[0]},{k[1]}]'
             if got == v:
                 run.proved(rule, fn, d, f'-> {sorted(v)}', loc)
+            elif got == {'compare_container'} and k[0] in 'AO' and k[1] in 'AO' and fn.endswith('::compare'):
+                run.proved(rule, fn, d, '-> compare_container (whose own table is checked below)', loc)
+            elif got and any(x not in ('Less', 'Greater', 'Equal', 'Err', 'compare_scalar', 'compare_array', 'compare_object', 'compare_container', 'compare') for x in got):
+                run.undecided(rule, fn, d, f'the kind pair ({k[0]},{k[1]}) is decided by {sorted(got)}, which this rule does not follow (expected {sorted(v)})', loc)
             else:
                 run.violation(rule, fn, d, f'the kind pair ({k[0]},{k[1]}) must give {sorted(v)}, found {sorted(got) if got else "no arm"}', loc)
         # scalar vs container: Null outranks containers, every other scalar is below them; and the two directions mirror each other
